@@ -1,12 +1,15 @@
 #!/bin/bash
 # Runs the quick (or given) tier of every registered check, one after the other;
 # prints one line per check with its exit code and wall time.
+# usage: run_all.sh [quick|thorough] [timeout-seconds] [extra check flags...]
 cd "$(dirname "$0")/.."
 tier=${1:-quick}
+to=${2:-3000}
+shift; shift
 mkdir -p out
 for id in $(python3 -c "import json; print(' '.join(c['property_id'] for c in json.load(open('MANIFEST.json'))['checks']))"); do
   s=$(date +%s)
-  timeout ${2:-3000} ./check $id $tier > out/all-$id-$tier.log 2>&1
+  timeout $to ./check $id $tier "$@" > out/all-$id-$tier.log 2>&1
   rc=$?
   echo "$id $tier exit=$rc $(( $(date +%s) - s ))s $(grep -c '^VIOLATION' out/all-$id-$tier.log) violations $(grep -c '^KNOWN-FINDING' out/all-$id-$tier.log) known $(grep -c '^BROKEN' out/all-$id-$tier.log) broken"
 done
